@@ -180,6 +180,11 @@ impl Runner {
             .stdin(Stdio::null())
             .stdout(Stdio::from(out_f))
             .stderr(Stdio::from(err_f));
+        for (k, v) in &case.plan.env {
+            if k != "LD_PRELOAD" && k != "SIM_PLAN" {
+                cmd.env(k, v);
+            }
+        }
         let mut child = cmd.spawn().map_err(|e| format!("spawn: {e}"))?;
         self.slot.started.store(now_secs(), Ordering::SeqCst);
         self.slot.pid.store(child.id() as i32, Ordering::SeqCst);
